@@ -80,8 +80,10 @@ func Check(v any) error {
 	for i := 0; i < value.NumField(); i++ {
 		sf := value.Type().Field(i)
 
-		if strings.HasPrefix(sf.Tag.Get("api"), "rel,") {
-			s := strings.Split(sf.Tag.Get("api"), ",")
+		// The tag of a relationship is made of the rel keyword, the
+		// type it points to and, optionally, the name of the inverse
+		// relationship (rel,type,inverse).
+		if s := strings.Split(sf.Tag.Get("api"), ","); s[0] == "rel" {
 
 			if len(s) < 2 || len(s) > 3 {
 				return fmt.Errorf(
